@@ -192,8 +192,9 @@ def run(ctx):
     binp = vlib.build_harness("c02_shape")
     cfg = "MC_Shaper_quick.cfg" if ctx.quick else "MC_Shaper_thorough.cfg"
     cases_path = ctx.path("cases.ndjson")
+    unsorted_path = ctx.path("cases.unsorted.ndjson")
     n_cases = [0]
-    with open(cases_path, "w") as fc:
+    with open(unsorted_path, "w") as fc:
         def sink(tag, payload):
             if tag == "CASE":
                 fc.write(payload + "\n")
@@ -203,6 +204,11 @@ def run(ctx):
              (mc.generated, mc.distinct, mc.depth, n_cases[0], mc.wall))
     if n_cases[0] == 0:
         raise vlib.ToolError("no CASE lines generated")
+    # TLC's workers print in a different order on every run; the plan hashes case indices, so the
+    # case file is put in a canonical order (the run depends on the seed only)
+    import subprocess
+    subprocess.check_call(["sort", "-o", cases_path, unsorted_path], env=dict(os.environ, LC_ALL="C"))
+    os.remove(unsorted_path)
 
     outdir = ctx.path("traces")
     nworkers = 8
